@@ -194,6 +194,103 @@ void sweep(mc::Reporter& r, int maxLen)
     r.count("distinct_nontrivial", nt);
 }
 
+// ---- counts near SIZE_MAX (added after seeded breakage c18_memchr_huge_count_wraps: memchr computed an end
+// pointer ptr + n, which wraps for the rawmemchr idiom memchr(p, c, SIZE_MAX) and made the loop body dead).
+// C defines memchr/wmemchr as reading sequentially and stopping at the first match, and strncmp / strncat
+// (wcsncmp / wcsncat) as stopping at the terminator, so a count far beyond the array is a valid argument
+// whenever the match / terminator lies inside the array.  Enumerated: every string of length 1..4 over {a,b}
+// x every character present in it (memchr) resp. every pair / destination prefix (ncmp, ncat) x the counts
+// {len+1, 2^31, 2^32, PTRDIFF_MAX, PTRDIFF_MAX+1, SIZE_MAX/4, SIZE_MAX/4+1, SIZE_MAX/2+1, SIZE_MAX-1, SIZE_MAX}.
+template <typename C>
+void huge_counts(mc::Reporter& r, int maxLen)
+{
+    using F          = Fn<C>;
+    auto const P     = pool<C>(maxLen);
+    std::uint64_t ev = 0;
+    constexpr std::size_t M = ~std::size_t(0);
+    std::size_t const huge[] = {std::size_t(1) << 31, std::size_t(1) << 32, M / 2, M / 2 + 1, M / 4, M / 4 + 1, M / 2 + 2, M / sizeof(C), M / sizeof(C) + 1, M - 1, M};
+    auto san         = mc::san_hits();
+    auto san_check   = [&](std::string const& subject, std::string const& kase) {
+        auto const now = mc::san_hits();
+        if (now != san) {
+            san = now;
+            r.violation("C02", subject, "huge_count", kase, "sanitizer report during a call with a count beyond the array (see job log)");
+        }
+    };
+    for (auto const& s : P) {
+        if (s.empty()) { continue; }
+        std::vector<std::size_t> counts{s.size() + 1};
+        counts.insert(counts.end(), std::begin(huge), std::end(huge));
+        for (std::size_t n : counts) {
+            if (n <= s.size()) { continue; } // M / sizeof(char) + 1 wraps to 0
+            // memchr / wmemchr: the array is exact-size and unterminated, the character is present
+            for (C ch : {C('a'), C('b')}) {
+                auto const pos = s.find(ch);
+                if (pos == std::basic_string<C>::npos) { continue; }
+                Exact<C> src(s);
+                std::string const subject = std::is_same_v<C, char> ? "etl::memchr" : "etl::wmemchr";
+                std::string const kase    = cat(F::name(), " array=", show(s), " ch=", char(ch), " count=", n, " (match at ", pos, ")");
+                C const* e = nullptr;
+                mc::Trap t = mc::guarded([&] {
+                    if constexpr (std::is_same_v<C, char>) {
+                        e = static_cast<char const*>(etl::memchr(static_cast<void const*>(src.data()), int(ch), n));
+                    } else {
+                        e = etl::wmemchr(src.data(), ch, n);
+                    }
+                });
+                ++ev;
+                r.outcome(mc::hash_str(cat(pos)));
+                if (t != mc::Trap::none) {
+                    r.violation("C02", subject, cat("huge_count/", mc::trap_name(t)), kase, mc::describe_trap(t));
+                } else if (e != src.data() + pos) {
+                    r.violation("C18", subject, "huge_count", kase, cat("tetl returned ", e == nullptr ? std::string("nullptr") : cat("offset ", e - src.data()), ", C requires offset ", pos));
+                }
+                san_check(subject, kase);
+            }
+            // strncmp / wcsncmp on terminated strings: stops at the terminator
+            for (auto const& q : P) {
+                std::string const subject = cat("etl::", F::pre(), "ncmp");
+                std::string const kase    = cat(F::name(), " lhs=", show(s), " rhs=", show(q), " count=", n);
+                mc::GuardedBlock<C> a(s.size() + 1), b(q.size() + 1);
+                std::copy(s.c_str(), s.c_str() + s.size() + 1, a.data());
+                std::copy(q.c_str(), q.c_str() + q.size() + 1, b.data());
+                int e = 0;
+                mc::Trap t = mc::guarded([&] { e = F::e_ncmp(a.data(), b.data(), n); });
+                int const w = s.compare(q);
+                ++ev;
+                if (t != mc::Trap::none) {
+                    r.violation("C02", subject, cat("huge_count/", mc::trap_name(t)), kase, mc::describe_trap(t));
+                } else if (sgn(e) != sgn(w)) {
+                    r.violation("C18", subject, "huge_count", kase, cat("tetl sign ", sgn(e), ", C requires ", sgn(w)));
+                }
+                san_check(subject, kase);
+            }
+            // strncat / wcsncat: appends the whole (terminated) source
+            for (auto const& p : P) {
+                if (p.size() > 2) { continue; }
+                std::string const subject = cat("etl::", F::pre(), "ncat");
+                std::string const kase    = cat(F::name(), " dest=", show(p), " src=", show(s), " count=", n);
+                std::size_t const total   = p.size() + s.size() + 1;
+                mc::GuardedBlock<C> de(total, 0x55), sr(s.size() + 1);
+                std::copy(s.c_str(), s.c_str() + s.size() + 1, sr.data());
+                std::copy(p.c_str(), p.c_str() + p.size() + 1, de.data());
+                mc::Trap t = mc::guarded([&] { (void)F::e_ncat(de.data(), sr.data(), n); });
+                auto const want = p + s;
+                ++ev;
+                if (t != mc::Trap::none) {
+                    r.violation("C02", subject, cat("huge_count/", mc::trap_name(t)), kase, mc::describe_trap(t));
+                } else if (!std::equal(want.c_str(), want.c_str() + total, de.data()) || !de.intact()) {
+                    r.violation("C18", subject, "huge_count", kase, "destination is not dest+src+terminator, or a canary was damaged");
+                }
+                san_check(subject, kase);
+            }
+        }
+        if (r.wants_sample()) { r.sample(cat(F::name(), " ", show(s), ": memchr of each present character, ncmp with every string, ncat onto 7 prefixes, 12 counts from len+1 to SIZE_MAX")); }
+    }
+    r.count("evaluations", ev);
+    r.count("distinct_nontrivial", ev);
+}
+
 } // namespace
 
 int main(int argc, char** argv)
@@ -201,5 +298,7 @@ int main(int argc, char** argv)
     mc::Main m(argc, argv);
     m.job("unterminated/char", {"quick", "thorough"}, [](mc::Reporter& r) { sweep<char>(r, r.thorough() ? 6 : 4); });
     m.job("unterminated/wchar_t", {"quick", "thorough"}, [](mc::Reporter& r) { sweep<wchar_t>(r, r.thorough() ? 6 : 4); });
+    m.job("huge-count/char", {"quick", "thorough"}, [](mc::Reporter& r) { huge_counts<char>(r, r.thorough() ? 5 : 4); });
+    m.job("huge-count/wchar_t", {"quick", "thorough"}, [](mc::Reporter& r) { huge_counts<wchar_t>(r, r.thorough() ? 5 : 4); });
     return m.run();
 }
